@@ -12,6 +12,7 @@ import (
 	"github.com/grindlemire/go-lucene/verif/core"
 	"github.com/grindlemire/go-lucene/verif/gen"
 	"github.com/grindlemire/go-lucene/verif/mon"
+	"github.com/grindlemire/go-lucene/verif/oracle"
 	"github.com/grindlemire/go-lucene/verif/qt"
 )
 
@@ -114,7 +115,31 @@ func c01Check(ctx *core.Ctx, kind, in string, big bool) (res c01Result) {
 	lexOK := ctx.Call("Lexer", func() { ntok, _ = mon.CountTokens(in) })
 	// a marker in the output can only be blamed on the input if the input itself can spell "%!"
 	hasPct := strings.Contains(in, "%") && strings.Contains(in, "!")
-	for _, df := range []string{"", "df"} {
+	// "any default-field option": a name the query does not use, or (every other case) a name
+	// the query itself uses as a field
+	df2 := "df"
+	more := []string{}
+	if ctx.Index()%2 == 1 || strings.HasSuffix(kind, "-tree") || kind == "fragments" {
+		ctx.Call("Lexer", func() {
+			toks, _ := oracle.Lex(in)
+			cands := []string{}
+			for i := 0; i+1 < len(toks) && len(cands) < 4; i++ {
+				if oracle.IsTermTok(toks[i]) && toks[i+1].Val == ":" {
+					if s, isStr := oracle.TypedValue(toks[i]).Val.(string); isStr && s != "" {
+						cands = append(cands, s)
+					}
+				}
+			}
+			if len(cands) > 0 && (strings.HasSuffix(kind, "-tree") || kind == "fragments") {
+				more = cands // small structured inputs: every field of the query in turn
+				ctx.Count("default_field_is_a_field_of_the_query", int64(len(cands)))
+			} else if len(cands) > 0 {
+				df2 = cands[int(ctx.Index()/2)%len(cands)]
+				ctx.Count("default_field_is_a_field_of_the_query", 1)
+			}
+		})
+	}
+	for _, df := range append([]string{"", df2}, more...) {
 		budget := stepBudget(len(in))
 		tickStart(budget)
 		mon.BeginParse()
